@@ -9,7 +9,7 @@ THEOREMS = ['Props.C01.' + t for t in [
     'write_read_fixpoint', 'flavour_param_spec', 'dispatch_as_modelled']]
 LEVEL_TEXT = ('Proof (partial): 25 Lean theorems, no sorry, about the executable model of t2data.py read/write: one record and one '
               'dictionary line read back field by field (any record kind); chunked lists of any length in lines of n (both sides of '
-              'every 4/8 boundary, all 17 chunk records of the current tables); record lists closed by a blank line; PARAM's default initial conditions (0..12, ...) with continuation lines and the look-ahead into the next section; full section round '
+              'every 4/8 boundary, all 17 chunk records of the current tables); record lists closed by a blank line; the default initial conditions of PARAM (0..12, ...) with continuation lines and the look-ahead into the next section; full section round '
               'trips for TIMES, ELEME, CONNE, GENER with its time/rate/enthalpy tables (main and extra-precision tables), INCON, FOFT/GOFT, COFT; the (A3,I2) block-name cycle is '
               'total and idempotent; the keyword loop of read() dispatches each written section once in file order and _sections becomes '
               'the file\'s keywords in order; insert/delete_section keep the order of the others; fixed point of the second file from the '
